@@ -61,3 +61,41 @@ func VC_C12_iface_h4() {
 	vIVar12 = nil
 	vHandleHistory(4, vIfaceTarget(), "C12.iface")
 }
+
+// VC_C12_iface_siblings: two methods of one interface variable stubbed through one
+// builder, one of them cancelled through its own lookup, then the other instructed again
+// (Return / When / Apply) through a fresh lookup: the sibling behaves according to that
+// most recent instruction.
+func VC_C12_iface_siblings() {
+	vEnv()
+	stub.VerifResetMmap()
+	vIVar12 = nil
+	t := reflect.TypeOf(&vIVar12).Elem()
+	b := Create()
+	ra, rb, x, c := verifInt("ra"), verifInt("rb"), verifInt("x"), verifInt("c")
+	b.Interface(&vIVar12).Method("Get").As(vICb0).Return(ra)
+	b.Interface(&vIVar12).Method("Put").As(vICb0).Return(rb)
+	b.Interface(&vIVar12).Method("Get").Cancel()
+	want := x
+	switch verifChoice("then", 3) {
+	case 0:
+		b.Interface(&vIVar12).Method("Put").As(vICb0).Return(x)
+	case 1:
+		b.Interface(&vIVar12).Method("Put").As(vICb0).When(c).Return(x)
+	default:
+		b.Interface(&vIVar12).Method("Put").Apply(vICb1)
+		want = c + 2000
+	}
+	verifAssert(vIVar12 != nil, "C12.iface-siblings.variable-holds-the-mock")
+	if vIVar12 != nil {
+		f, recv, notImpl := vDispatch(unsafe.Pointer(&vIVar12), vSlotOf(t, "Put"), "C12.iface-siblings")
+		verifAssert(!notImpl && f != nil, "C12.iface-siblings.sibling-mocked")
+		if !notImpl && f != nil {
+			got, p := vCall07(f, recv, c)
+			verifAssert(!p && got == want, "C12.iface-siblings.most-recent-instruction-obeyed")
+		}
+	}
+	b.Reset()
+	verifAssert(vIVar12 == nil, "C12.iface-siblings.reset-restores")
+	verifReached("C12.iface-siblings")
+}
